@@ -13,11 +13,11 @@ export const rule = 'distinct = structural shape of the abstract file set (node 
 export const assumptions = [
   'the reference renderer is written from the documentation and the property text (Appendix B of DESIGN.md); it never parses WXML',
   'templates on which the reference itself throws (e.g. instanceof with a non-callable operand) are outside the workload and counted',
-  'elements are native nodes of the real runtime; slot-value scopes are exercised in C05/C06 with a dynamic-slots child component',
+  'in every second case `<x-a>` is a real child component with any-typed properties (its property values are part of the snapshot); all other elements are native nodes; slot-value scopes are exercised in C05/C06 with a dynamic-slots child component',
 ]
 
-function referenceFor(fs_, D) {
-  const r = new Renderer({ files: fs_.files, scripts: fs_.scripts })
+function referenceFor(fs_, D, propComponents) {
+  const r = new Renderer({ files: fs_.files, scripts: fs_.scripts }, { propComponents })
   return r.renderMain(fs_.main, D)
 }
 
@@ -34,7 +34,7 @@ export function judgeCase(ctx, c, res) {
     const want = c.refs[di]
     if (want === null) return
     report.evals()
-    const { comp, tr, error } = instantiate(ge, res.groups, c.fs.main, D, { keepEvents: false })
+    const { comp, tr, error } = instantiate(ge, res.groups, c.fs.main, D, { keepEvents: false, propComponents: (c.caseSeed & 1) === 1 })
     if (error) {
       viol(`generated code threw: ${String(error.message || error).slice(0, 200)}`, { files: c.sources, data: X.show(D), error: String(error.stack || error).slice(0, 800), reference: showSnap(want) })
       return
@@ -79,7 +79,7 @@ export function makeCases(ctx, n, genOpts = {}, fixedSeeds = null) {
     let sources
     try { sources = printFileSet(fs_, st) } catch (e) { if (/adjacent text/.test(e.message)) { report.count('model_rejects'); continue } throw e }
     const datas = [makeData(r), makeData(r), makeData(r)]
-    const refs = datas.map((D) => { try { return referenceFor(fs_, D) } catch (e) { return null } })
+    const refs = datas.map((D) => { try { return referenceFor(fs_, D, (caseSeed & 1) === 1) } catch (e) { return null } })
     if (refs.every((x) => x === null)) { report.count('reference_throws_skipped'); continue }
     report.count('reference_throws_envs', refs.filter((x) => x === null).length)
     cases.push({ id: cases.length, caseSeed, genOpts, fs: fs_, sources, datas, refs })
